@@ -59,6 +59,8 @@ class Ctx:
         self.trusted = set()
         self.dropped = set()
         self.gnames = {}
+        self.uf_float = set()   # float operations translated as uninterpreted functions (relational proofs)
+        self.uf_decls = set()
 
     # ------------------------------------------------------------ types
     def ctype(self, t):
@@ -461,6 +463,10 @@ class FuncEmitter:
         if op == 'frem':
             self.ctx.trusted.add('cbmc-libm:fmod')
             return '%s(%s, %s)' % ('fmodf' if kind == 'float' else 'fmod', a, b)
+        if op in self.ctx.uf_float:
+            sfx = 'f32' if kind == 'float' else 'f64'
+            self.ctx.trusted.add('relational abstraction: %s as an uninterpreted function (sound for equalities between two runs)' % op)
+            return 'LL2C_UF2(%s_%s, %s, %s, %s)' % (op, sfx, {'fmul': '*', 'fdiv': '/'}[op], a, b)
         c = {'fadd': '+', 'fsub': '-', 'fmul': '*', 'fdiv': '/'}[op]
         return '(%s %s %s)' % (a, c, b)
 
@@ -954,7 +960,7 @@ class FuncEmitter:
             return
         if name in LIBM_CBMC or name in LIBM_UNINT or name in LIBM_MODEL:
             self.ctx.used_ext.add(('libm', name))
-            call = 'LL2C_LIBM_%s(%s)' % (name, ', '.join(self.argval(t, v) for (t, v, a) in args))
+            call = '%s(%s)' % (self.libm_name(name, args), ', '.join(self.argval(t, v) for (t, v, a) in args))
             self.finish_call(ins, call)
             return
         if name in ('memcpy', 'memset', 'memmove'):
@@ -968,6 +974,16 @@ class FuncEmitter:
             self.finish_call(ins, call)
             return
         raise Unsupported('call to unknown @' + name)
+
+    def libm_name(self, name, args, nargs=None):
+        base = name[:-1] if (name.endswith('f') and name[:-1] in ('sqrt', 'fmod', 'floor', 'ceil', 'trunc', 'round', 'fabs', 'fmin', 'fmax', 'nearbyint', 'rint', 'copysign')) else name
+        if base in self.ctx.uf_float and base in ('sqrt', 'fmod'):
+            k = 'float' if name.endswith('f') else 'double'
+            n = nargs if nargs is not None else len(args)
+            self.ctx.uf_decls.add('%s __CPROVER_uninterpreted_uf_%s(%s);' % (k, name, ', '.join([k] * n)))
+            self.ctx.trusted.add('relational abstraction: %s as an uninterpreted function (sound for equalities between two runs)' % base)
+            return 'LL2C_UFCALL(%s)' % name
+        return 'LL2C_LIBM_%s' % name
 
     def argval(self, t, v):
         e = self.val(v, t)
@@ -1056,12 +1072,12 @@ class FuncEmitter:
                 fn = cn + suf
                 self.ctx.used_ext.add(('libm', fn))
                 for i in range(n):
-                    self.out.append('%s.e[%d] = LL2C_LIBM_%s(%s);' % (self.lname(ins.res), i, fn,
+                    self.out.append('%s.e[%d] = %s(%s);' % (self.lname(ins.res), i, self.libm_name(fn, None, len(A)),
                                                                       ', '.join('%s.e[%d]' % (a, i) for a in A)))
                 return
             fn = cn + ('f' if mm.group(2) == 'f32' else '')
             self.ctx.used_ext.add(('libm', fn))
-            self.assign(ins.res, 'LL2C_LIBM_%s(%s)' % (fn, ', '.join(A)))
+            self.assign(ins.res, '%s(%s)' % (self.libm_name(fn, None, len(A)), ', '.join(A)))
             return
         # horizontal integer reductions: llvm.vector.reduce.or.v4i32 etc. (add/mul wrap: low n bits of the u64 result are exact)
         mm = re.match(r'^llvm\.vector\.reduce\.(or|and|xor|add|mul)\.v(\d+)i(\d+)$', name)
@@ -1279,9 +1295,10 @@ def global_init(ctx, fe, name, g):
     return '%s %s %s = %s;' % (qual, ct, ctx.gname(name), e)
 
 
-def translate(mod, roots=None, prefix='', poison_flags=True, only=None):
+def translate(mod, roots=None, prefix='', poison_flags=True, only=None, uf_float=()):
     """returns (c_text, info)"""
     ctx = Ctx(mod, prefix=prefix, poison_flags=poison_flags)
+    ctx.uf_float = set(uf_float)
     if roots is None:
         names = [n for n in mod.order if mod.funcs[n].defined]
     else:
@@ -1305,7 +1322,8 @@ def translate(mod, roots=None, prefix='', poison_flags=True, only=None):
             globs.append(global_init(ctx, dummy, n, mod.globals[n]))
     head = ['/* generated by ll2c.py - do not edit */', '#include "ll2c_rt.h"', '#include "ll2c_libm.h"']
     tds = [ctx.typedefs[k] for k in ctx.typedef_order]
-    text = '\n'.join(head + tds + protos + ext + globs + bodies) + '\n'
+    ufd = ['#ifdef LL2C_CBMC'] + sorted(ctx.uf_decls) + ['#endif'] if ctx.uf_decls else []
+    text = '\n'.join(head + ufd + tds + protos + ext + globs + bodies) + '\n'
     info = {'functions': names,
             'libm': sorted(n for k, n in ctx.used_ext if k == 'libm'),
             'x86': sorted(n for k, n in ctx.used_ext if k == 'x86'),
